@@ -527,10 +527,15 @@ def I_rules(ctx, rule="I"):
     f_state = [i for i, f in enumerate(so) if "InterruptibilityState" in f["ty"]["s"]][0]
     f_inc = [i for i, f in enumerate(so) if f["ty"]["s"] == "bool"][0]
     default_body = None
+    ctor_ids = []
     for b in fb.prod_bodies():
         sig = fb.fns.get(b.id, {})
         if sig.get("impl_trait") == "std::default::Default" and (sig.get("impl_self") or "").startswith("stream_opts::StreamOpts"):
             default_body = b
+        # constructors of the options (default / new): no `self`, return StreamOpts
+        if (sig.get("impl_self") or "").startswith("stream_opts::StreamOpts") and (sig.get("output") or {}).get("s", "").startswith("stream_opts::StreamOpts") \
+                and not (sig.get("inputs") and sig["inputs"][0]["s"].startswith("stream_opts::StreamOpts")):
+            ctor_ids.append(b.id)
     # I1: per entry
     n = 0
     for e in m.entries:
@@ -555,7 +560,7 @@ def I_rules(ctx, rule="I"):
                 for (b, bb, t) in wraps:
                     srcs = fl.sources_operand(b, t["args"][1])
                     fromp = [s for s in srcs if s.kind == "param" and s[3][:1] == (f_state,)]
-                    fromd = [s for s in srcs if default_body is not None and ((s.kind in ("alloc", "agg", "const") and default_body.id in str(s)))]
+                    fromd = [s for s in srcs if s.kind in ("alloc", "agg", "const") and any(cid in str(s) for cid in ctor_ids)]
                     ok = bool(fromp or fromd) and len(fromp) + len(fromd) == len(srcs)
                     why = "state has sources %s" % [fmt_src(s) for s in srcs][:4]
                 ctx.check(ok, rule + "1", "stream-state|%s" % e["name"], where,
@@ -582,7 +587,7 @@ def I_rules(ctx, rule="I"):
             for s in srcs:
                 if s.kind == "param" and s[3][:1] == (fld,) and "StreamOpts" in fb.bodies[s[1]].locals[s[2]]["s"]:
                     continue
-                if default_body is not None and default_body.id in str(tuple(s)):
+                if any(cid in str(tuple(s)) for cid in ctor_ids):
                     continue
                 bad.append(s)
             ctx.check(not bad, rule + "1", "%s-only|%s" % (nm, e["name"]), where,
@@ -847,6 +852,17 @@ def O_rules(ctx, rule="O"):
                                             some_arm = tt
                                         else:
                                             none_arm = tt
+                        re0 = return_expr(fcl)
+                        if fms[0][0] == "std::iter::Iterator::filter_map" and re0 is not None and re0.kind == "call" and \
+                                re0[1].endswith("::then_some") and len(re0[2]) == 2:
+                            # `(!processed.contains(&id)).then_some(id)`
+                            c0 = strip_refs(re0[2][0])
+                            neg = False
+                            while c0.kind == "unop" and c0[1] == "Not":
+                                neg = not neg
+                                c0 = strip_refs(c0[2])
+                            if c0.kind == "call" and len(c0) > 3 and c0[3] == bbc and neg:
+                                some_arm, none_arm = False, True
                         if fms[0][0] == "std::iter::Iterator::filter":
                             # `filter(|id| !processed.contains(id))`: kept iff not contained
                             re_ = return_expr(fcl)
